@@ -95,7 +95,7 @@ class C15(Prop):
     title = 'Answers are fully dereferenced and stay valid after backtracking'
     technique = 'property-based testing (Hypothesis) over binding orders of a term DAG; oracle = reference answers + re-inspection of saved get_value results after the generator moved on'
     rule = ('a target term (depth <= 3, lists, mostly ground) is decomposed into equations V = structure over fresh '
-            'variables (with variable-variable chains) and up to two leaves supplied by a two-solution fact predicate; '
+            'variables (with variable-variable chains) and up to two leaves supplied by a two-solution predicate (two facts, or a first clause that binds its argument through a chain of one or two intermediate variables); '
             'Hypothesis draws the ORDER of the equations (outer first / inner later / chains); the clause p(X) :- eqs is '
             'queried directly, through findall/3, and through assert-then-read; an API-level variant opens the same '
             'equations as nested unify generators. At each answer reify(get_value(v)) must equal R\'s answer and '
@@ -123,7 +123,7 @@ class C15(Prop):
         while pool:
             order.append(pool.pop(src.n(len(pool))))
         eqs = [eqs[i] for i in order]
-        return {'eqs': eqs, 'mode': src.pick(['direct', 'direct', 'findall', 'assert', 'api']), 'close_after': src.n(3)}
+        return {'eqs': eqs, 'mode': src.pick(['direct', 'direct', 'findall', 'assert', 'api']), 'close_after': src.n(3), 'multi_form': src.n(3)}
 
     def sample_view(self, case):
         return {'equations_in_order': ['%s %s %s' % (show(tt(a)), '=' if k == 'eq' else 'in {z,', show(tt(b)) + ('' if k == 'eq' else '}')) for k, a, b in case['eqs']],
@@ -161,7 +161,19 @@ class C15(Prop):
             else:
                 nm += 1
                 name = 'm%d' % nm
-                clauses.append((('f', name, (('a', 'z'),)), ('true',)))
+                form = case.get('multi_form', 0)
+                if form == 0:
+                    clauses.append((('f', name, (('a', 'z'),)), ('true',)))
+                else:
+                    # the first alternative binds its argument THROUGH one or two intermediate variables (a chain whose
+                    # middle links are undone and re-bound when the second alternative is tried)
+                    M1, M2, M3 = ('v', 'M1'), ('v', 'M2'), ('v', 'M3')
+                    steps = [('call', ('f', '=', (M1, M2))), ('call', ('f', '=', (M2, ('a', 'z'))))] if form == 1 else \
+                            [('call', ('f', '=', (M1, M2))), ('call', ('f', '=', (M2, M3))), ('call', ('f', '=', (M3, ('a', 'z'))))]
+                    bd = steps[-1]
+                    for x in reversed(steps[:-1]):
+                        bd = (',', x, bd)
+                    clauses.append((('f', name, (M1,)), bd))
                 clauses.append((('f', name, (b,)), ('true',)))
                 body.append(('call', ('f', name, (a,))))
         b_ = body[-1]
